@@ -34,3 +34,16 @@ def run(F, X, rep):
     # task - the reader does nothing but read and spawn, it never awaits a handler (C17-R2, cited)
     import p_c17
     p_c17.r2(F, X, rep, "C14-D")
+    # the table lock is WAITED for: a handler that finds it taken by another hash's short critical section must queue (`lock().await`);
+    # `try_lock` makes the outcome for one hash depend on what another hash is doing at that instant
+    rep.rule("C14-A", "the payments table (and every other shared tokio Mutex of the handler path) is acquired by awaiting lock(), never by try_lock")
+    tl = [(b, c) for b in F.code_bodies() for c in b.calls
+          if not c.noise and c.name in ("tokio::sync::Mutex::try_lock", "tokio::sync::Mutex::try_lock_owned", "tokio::sync::RwLock::try_write", "tokio::sync::RwLock::try_read", "std::sync::Mutex::try_lock")
+          and "src/" in b.span.get("f", "") and "/cln_plugin/logging" not in b.span.get("f", "") and "::tests" not in b.cdef]
+    import names as NM14
+    ps = NM14.PS()
+    tbl = [(b, c) for b, c in tl if ps in (c.full or "")]
+    rep.ob("C14-A", not tbl, F.root_of(tbl[0][0]) if tbl else "crate", "the payments table is never try_lock'ed", where=tbl[0][1].loc if tbl else "", how="no try_lock on the table",
+           detail="" if not tbl else "the payments table is taken with try_lock at %s: while another hash holds it the HTLC is not queued - it is dropped or fails (the outcome depends on another payment)" % tbl[0][1].loc)
+    locks = [c for b in F.code_bodies() for c in b.calls if c.name == "tokio::sync::Mutex::lock" and ps in (c.full or "")]
+    rep.anchor("C14-A", "lock() acquisitions of the payments table", len(locks), 2)
